@@ -814,6 +814,14 @@ impl ReCompiler {
             } else {
                 Ok(Operation::from(Repeat::new(ret, min, max, true)))
             }
+        } else if ret.get_match_length() == Some(0) {
+            // a zero-width test: zero iterations are preferred if allowed,
+            // otherwise repeating it makes no difference
+            if min == 0 {
+                Ok(Operation::from(Nothing))
+            } else {
+                Ok(ret)
+            }
         } else if let Some(match_length) = ret.get_match_length() {
             Ok(Operation::from(ReluctantFixed::new(
                 ret,
